@@ -15,6 +15,7 @@ import (
 	"fmt"
 	"math/rand/v2"
 	"os"
+	"regexp"
 	"strconv"
 	"strings"
 
@@ -139,8 +140,23 @@ func checkPrefixes(src, origin string, c *counters, emit func(fail)) {
 
 // classifyPrefix: narrow class of a prefix failure, decided on the input and the failure signature.
 func classifyPrefix(q string, e perr) string {
+	// KF-C10-1: a here-document opened on a line that continues with a `let` clause: letClause reads the
+	// newline while its nested lexer state still hides the pending here-document, so the body is not read
+	// there; the prefix ending at that line fails with a plain "unclosed here-document" from Parse's final
+	// doHeredocs (outside any open statement).
+	if strings.Contains(e.Msg, "unclosed here-document") {
+		line := strings.TrimRight(q, "\n")
+		if i := strings.LastIndexByte(line, '\n'); i >= 0 {
+			line = line[i+1:]
+		}
+		if i := strings.Index(line, "<<"); i >= 0 && letAfter.MatchString(line[i:]) {
+			return "heredoc_pending_across_let_clause"
+		}
+	}
 	return ""
 }
+
+var letAfter = regexp.MustCompile(`(^|[\s;&|(])let\s`)
 
 // ---------------------------------------------------------------- position clause
 
@@ -554,6 +570,8 @@ var witnesses = []string{
 	"if foo <<'EOF'\nbar\nEOF\nthen x; fi\n",
 	"foo <<EOF\nbar\nEOF\n",
 	"foo <<'A' <<'B'\na\nA\nb\nB\n",
+	"a <<EOF || [[ a == b ]]\n(\nEOF\n", // fixed 0009ad8
+	"a <<EOF || let 1\nb\nEOF\n",        // KF-C10-1
 }
 
 func main() {
